@@ -147,7 +147,9 @@ func vmalformed(r *vrand, i int) []byte {
 		for j := 0; j < 1+r.intn(40); j++ {
 			sb.WriteString([]string{"&amp;", "&lt", "&#x41;", "&#65", "&", "&&", "&copy; 2020", "a&b", "&#0;", "&#xD800;", "(c)", "&nbsp;x", "&quot;w&quot; ", "RECIPIENT&APOS;S", "x&AMP;y", "&Quot;q&QUOT;", "&Eacute;&eacute;",
 				// scheme-like words shorter than the scheme they resemble, the capital arriving as an entity or as is
-				"Https:", "Https:/", "&#72;ttps:", "&#x48;ttps:/", "&#72;ttps://", "&#72;ttp:", "Http:", "https:", "Https:x", "&#72;ttps://a.b"}[r.intn(27)])
+				"Https:", "Https:/", "&#72;ttps:", "&#x48;ttps:/", "&#72;ttps://", "&#72;ttp:", "Http:", "https:", "Https:x", "&#72;ttps://a.b",
+				// a word that is nothing but one punctuation mark once its entity is decoded, first on its line and later
+				"\n&#46; x", "\n&colon;\n", "\n&rpar; y", "\n&#58;", "\n&#41; z &#46;", "\n&period; &#x2e;\n", "\n&#45;\n", "\n&lpar;&rpar;\n", "\n&amp;\n"}[r.intn(36)])
 			if r.chance(1, 3) {
 				sb.WriteByte(' ')
 			}
